@@ -441,6 +441,11 @@ class ModelInputArrayBijector:
           attr.evolve(spec, bounds=(0.5, 0.5), scale=None),
       )
 
+    if not np.isfinite(high - low):
+      raise ValueError(
+          'The range of the parameter is too wide to be scaled: low bound is'
+          f' {low} and high bound is {high}.'
+      )
     if spec.scale in (pyvizier.ScaleType.LOG, pyvizier.ScaleType.REVERSE_LOG):
       if low <= 0 or high <= 0:
         raise ValueError(
